@@ -38,7 +38,7 @@ ASSUMPTIONS = ["index names are single tokens letter+digits; expressions in "
 
 CFG = Cfg(min_obj=1, max_obj=4, max_terms=3, max_target=4, max_exp=2,
           allow_hyper=True, allow_explicit=False, allow_general=True,
-          allow_sqrt=False, allow_numbered=False,
+          allow_sqrt=False, allow_numbered=False, symbol_powers=True,
           spin_modes=[False, False, False, False, True], max_slots=10,
           names=["V", "f", "A", "B", "C", "t1", "t2", "X", "Y", "R", "v",
                  "x", "y", "z", "w", "delta"])
